@@ -183,6 +183,34 @@ exact: (@degen_symeig_backward_adjoint_conj F cj cjK D Dcj n A Y e HA H1 H2 He H
 Qed.
 Print Assumptions C06_dense_backward_adjoint_conjugate.
 
+(* T9: the implicit path in the COMPLEX Hermitian case with COINCIDING kept eigenvalues (T6 and T7 together): k kept columns, partial
+   spectrum, with M, the degeneracy map; X^H G Hermitian on the masked pairs; real-part pairing *)
+From XV Require Import Proofs.SymeigConjDegen.
+Theorem C06_eigpairs_backward_adjoint_degenerate_conjugate :
+  forall (R : comRingType) (cj : {rmorphism R -> R}), involutive cj ->
+  forall (D : derivation R), (forall a, D (cj a) = cj (D a)) ->
+  forall n k (A M : 'M[R]_n) (x : 'I_k -> 'cV[R]_n) (e : 'I_k -> R),
+  map_mx cj A^T = A -> map_mx cj M^T = M -> (forall i, cj (e i) = e i) ->
+  (forall i, A *m x i = e i *: (M *m x i)) -> (forall i j, hdot cj (x i) (M *m x j) = (i == j)%:R) ->
+  forall half : R, half + half = 1 ->
+  forall mask : rel 'I_k, (forall i, mask i i) -> (forall i j, mask i j = mask j i) -> (forall i j, mask i j -> e i = e j) ->
+  forall (g v : 'I_k -> 'cV[R]_n) (ge : 'I_k -> R), (forall i, cj (ge i) = ge i) ->
+  (forall i j, mask i j -> hdot cj (x i) (g j) = cj (hdot cj (x j) (g i))) ->
+  let c := fun j i : 'I_k => if mask j i then hdot cj (x j) (g i) else 0 in
+  let b := fun i => g i - \sum_j c j i *: (M *m x j) in
+  (forall i, A *m v i - e i *: (M *m v i) = - b i) ->
+  let mv := fun j i : 'I_k => if mask j i then hdot cj (x j) (M *m v i) else 0 in
+  let w := fun i => v i - \sum_j mv j i *: x j in
+  let accA := fun i => ge i *: x i + w i in
+  let accM := fun i => - (ge i * e i) *: x i - e i *: w i - half *: \sum_j c j i *: x j in
+  Re cj half (\sum_i (hdot cj (g i) (dmx D (x i)) + ge i * D (e i))) =
+  Re cj half (\sum_i (hdot cj (accA i) (dmx D A *m x i) + hdot cj (accM i) (dmx D M *m x i))).
+Proof.
+move=> R cj cjK D Dcj n k A M x e HA HM He Heig Ho half Hh mask Hr Hs Hd g v ge Hge Hq c b Hv mv w accA accM.
+exact: (@eigpairs_backward_adjoint_degenerate_conj R cj cjK D Dcj n k A M x e HA HM He Heig Ho half Hh mask Hr Hs Hd g v ge Hge Hq Hv).
+Qed.
+Print Assumptions C06_eigpairs_backward_adjoint_degenerate_conjugate.
+
 (* non-vacuity: a genuinely degenerate spectrum (A = 1, e = (1, 1)) with the full mask meets every hypothesis of T5 *)
 Example C06_degenerate_hypotheses_satisfiable :
   let A : 'M[rat]_2 := 1%:M in let Y : 'M[rat]_2 := 1%:M in let e : 'rV[rat]_2 := \row_i 1 in
